@@ -629,7 +629,10 @@ class FParser2IR(GenericVisitor):
             _type = _type.clone(shape=_type.dimension, dimension=None)
             # Attach dimension attribute to variable declaration for uniform
             # representation of variables in declarations
-            variables = as_tuple(v.clone(dimensions=_type.shape) for v in variables)
+            # (an entity with its own array specification keeps it)
+            variables = as_tuple(
+                v if getattr(v, 'dimensions', None) else v.clone(dimensions=_type.shape) for v in variables
+            )
 
         # EXTERNAL attribute means this is actually a function or subroutine
         # Since every symbol refers to a different function we have to update the
@@ -647,8 +650,17 @@ class FParser2IR(GenericVisitor):
                 symbols=variables, external=True, source=source, label=label
             )
 
-        # Update symbol table entries and rescope
-        scope.symbol_attrs.update({var.name: var.type.clone(**_type.__dict__) for var in variables})
+        # Update symbol table entries and rescope; the array specification and character
+        # length given for an individual entity take precedence over the common ones
+        def _entity_type(var):
+            attrs = dict(_type.__dict__)
+            if getattr(var, 'dimensions', None):
+                attrs['shape'] = var.dimensions
+            if var.type.length is not None:
+                attrs['length'] = var.type.length
+            return var.type.clone(**attrs)
+
+        scope.symbol_attrs.update({var.name: _entity_type(var) for var in variables})
         variables = tuple(var.rescope(scope=scope) for var in variables)
 
         return ir.VariableDeclaration(
